@@ -44,13 +44,11 @@ Fixpoint mapM {A B} (f : A -> res B) (l : list A) : res (list B) :=
 Definition deref (p : gv) : res gv :=
   match p with VPtr (Some s) => Ok s | _ => Panic PReflect end.
 
-(* noAddrStruct(orig): a pointer to a fresh struct holding copies of orig's EXPORTED fields only
-   (unexported fields of the copy stay zero; a time.Time has no exported field, so its copy is the zero time) *)
+(* noAddrStruct(orig): a pointer to a fresh struct holding a copy of the WHOLE value (`ptr.Elem().Set(orig)`,
+   since commit d415afb: unexported and promoted fields are kept) *)
 Definition no_addr_struct (orig : gv) : res gv :=
   match orig with
-  | VStruct fs =>
-      Ok (VPtr (Some (VStruct (map (fun p => (fst p, if f_exported (fst p) then snd p else zero (snd p))) fs))))
-  | VTime _ => Ok (VPtr (Some (VTime 0)))
+  | VStruct _ | VTime _ => Ok (VPtr (Some orig))
   | _ => Panic PNoAddrArg
   end.
 
@@ -63,7 +61,21 @@ Section Level.
   Definition secure_field (p : fmeta * gv) : res (fmeta * gv) :=
     let m := fst p in
     let x := snd p in
-    if negb (f_exported m) then Ok p                                   (* !IsExported(): continue *)
+    if negb (f_exported m) then
+      (* !IsExported(): continue - except that an embedded struct / non-nil *struct of an unexported type is
+         entered, because its exported fields are promoted and serialised (since commit d415afb); the field's
+         own tag is not looked at *)
+      if f_embedded m then
+        match x with
+        | VStruct _ | VTime _ => q <- rec_struct (VPtr (Some x)) ;; s <- deref q ;; Ok (m, s)   (* secureStruct(val.Field(i).Addr()) *)
+        | VPtr (Some y) =>
+            match kind_of y with
+            | KStruct => q <- rec_struct x ;; Ok (m, q)                                          (* secureStruct(val.Field(i)) *)
+            | _ => Ok p
+            end
+        | _ => Ok p
+        end
+      else Ok p
     else if has_secure (f_tag m) then
       match x with
       | VStr _ => Ok (m, VStr hidden_str)                              (* field.SetString("[secret hidden]") *)
@@ -90,7 +102,7 @@ Section Level.
 
   (* the element cases shared by secureSlice / secureMap / secureInterface for a struct-kind element:
      time.Time is skipped (since commit 3ba5b82 the test looks at the element), any other struct is copied
-     with noAddrStruct, scrubbed through the pointer to the copy, and the copy is stored back *)
+     (whole) with noAddrStruct, scrubbed through the pointer to the copy, and the copy is stored back *)
   Definition secure_struct_elem (e : gv) : res gv :=
     if is_time e then Ok e
     else p <- no_addr_struct e ;; q <- rec_struct p ;; deref q.
